@@ -768,7 +768,7 @@ def enum_small(tier):
 SUBS = [
     Sub('filters', _filters_case, run_partition, quick=3000, thorough=30000,
         rule='tables of 0-8 rows x 1-3 columns (thorough 0-12 x 1-4) of None/ints/floats/NaN objects/strings, about 8% of them LARGE (64/65/100/128/200 rows, thorough also 257/500: '
-             'short column patterns repeated), column names nested in one another; a conjunction of 0-3 column conditions '
+             'short column patterns repeated), column names nested in one another, +-inf cells in about 17% of the tables (a row whose infinite cell meets a NaN condition must only be in exactly one of inc / exc); a conjunction of 0-3 column conditions '
              '(value, list of admissible values, None, NaN, compiled regex) passed as keywords, one dict, dict + keywords, or several dicts. '
              'oracle: plain list-of-records filter; inc = satisfying rows in order, exc = the others in order, both with all columns, lengths add up, '
              'inc() = identity, inc twice = once, table untouched. non-trivial = at least one row and (both parts non-empty, or a None/NaN/regex condition, '
@@ -782,7 +782,7 @@ SUBS = [
                       'columns_not_alphabetical': 0.2, 'conds_not_in_column_order': 0.03, 'noop_selection': 0.3, 'falsy_condition_value': 0.08,
                       'nested_column_names': 0.15, 'only_first_row': 0.005, 'only_last_row': 0.005,
                       'row_satisfies_some_not_all_across_containers': 0.03, 'regex_matches_str_of_nonstr_cell': 0.015,
-                      'inf_cell': 0.08, 'inf_cell_under_nan_condition': 0.02}),
+                      'inf_cell': 0.08, 'inf_cell_under_nan_condition': 0.03}),
     Sub('predicate', _predicate_case, run_partition, quick=2000, thorough=15000,
         rule='same tables; ONE callable over 1-3 named columns: a catalogue of total predicates (is None, is NaN, is str, > 0, str(a) < str(b), a == b, '
              'constant True / False) or an arbitrary truth table on the rows; in about 40% of the cases the verdict is returned as a truthy / falsy non-bool (0/1, 0/2, None/x, empty/non-empty str or list, or a kind that varies from row to row). oracle: the truth value of the same python predicate applied to the plain records. '
@@ -795,7 +795,7 @@ SUBS = [
              'raise ValueError when no row or two different values are selected; one_or_none(condition[, exc=][, find=]) must give None / the row / ValueError '
              'for 0 / 1 / several selected rows. non-trivial = the selection is not a single row',
         floor=0.3, class_floors={'none_selected': 0.1, 'multiple_values': 0.1, 'unique_from_many': 0.05, 'single_row': 0.05, 'one_or_none_exc': 0.1,
-                                 'nonbool_result': 0.05, 'large': 0.03, 'nested_column_names': 0.15, 'inf_cell_under_nan_condition': 0.015}),
+                                 'nonbool_result': 0.05, 'large': 0.03, 'nested_column_names': 0.15, 'inf_cell_under_nan_condition': 0.03}),
     EnumSub('small_enum', enum_small, run_partition, thorough_only=True, chunks=64,
             rule='every 1-column table of 0-%i rows over the pool %s x %i single-column conditions x {keyword, dict}; same oracle as filters'
                  % (ENUM_MAX_ROWS, ENUM_POOL, len(ENUM_CONDS))),
